@@ -158,3 +158,29 @@ class SymMath:
     def sqrt(self, x):
         from vf.symx.core import sqrt
         return sqrt(x)
+
+    def atan2(self, y, x):
+        from vf.symx.core import cur
+        return cur().atan2(y, x)
+
+    def cos(self, a):
+        from vf.symx.core import cur
+        return cur().cos_sin(a)[0]
+
+    def sin(self, a):
+        from vf.symx.core import cur
+        return cur().cos_sin(a)[1]
+
+
+def obj_vec_class():
+    """Vec twin for modules that create float result buffers with Vec(0.,0.,0.) and then store into them: the buffer is
+    made object-dtype so it can hold symbolic reals; everything else is the real Vec"""
+    from mouette.geometry import Vec
+
+    class ObjVec(Vec):
+        def __new__(cls, *a):
+            arr = _np.asarray(a[0]) if len(a) == 1 else _np.asarray(a)
+            if arr.dtype != object:
+                arr = arr.astype(object)
+            return arr.view(Vec)
+    return ObjVec
